@@ -37,8 +37,12 @@ DRIVER = 'drv_c08'
 CFG = os.environ.get('VERIF_C08_CFG', 'fixed')   # developer knob: 'orig' = model of the design-round code
 
 CLAIM = {
-    'technique': 'Lean 4 invariant proof over operation histories of a cache state machine + exact '
-                 '(rational) correspondence of every operation output with the real classes',
+    'technique': 'Lean 4 invariant proof over operation histories of a cache state machine; tied to the source (a) by '
+                 'REGENERATION of the cache-invalidation structure (per class and entry point: attributes reset / '
+                 'assigned / conditionally written / lazily filled / read, re-emitted from the AST on every run and '
+                 'compared with the effect of the model\'s step by kernel-checked decision, plus a decidable '
+                 'sufficiency condition on the generated tables) and (b) by exact (rational) correspondence of every '
+                 'operation output with the real classes',
     'text': 'For every finite history of randomize / init_from_channel_matrix / set_pathloss / noise_var / '
             'set_post_filter / reads / corrupt_data on the plain and the external-interference channel, the '
             'model of the (repaired) code keeps every lazily cached view equal to its recomputation from the raw '
@@ -51,8 +55,39 @@ CLAIM = {
             'Mathlib\'s matrix operations, block_diag is proved block diagonal, and receiver k\'s rows of big_H vstack(x) '
             'are proved to be the sum over the transmitters l of the rows of get_Hkl(k,l) times x_l. The model is tied to the source '
             'by exact comparison of all outputs on seeded histories; negative witnesses of the three defects of '
-            'the design-round code (now fixed) are proved on the model of that code.',
-    'note': 'Trusted: Lean kernel, axioms {propext, Classical.choice, Quot.sound}; the hand model and its exact '
+            'the design-round code (now fixed) are proved on the model of that code. Second tie (regeneration): '
+            'Generated/C08Effects.lean lists, for MultiUserChannelMatrix and MultiUserChannelMatrixExtInt separately '
+            '(overrides such as ExtInt.set_pathloss resolved per class, private helpers and explicit base-class '
+            'calls inlined whatever their names), what every public method / getter / setter does to every data '
+            'attribute on its normal exits, the attributes of a fresh object and what every lazy fill reads. '
+            'Theorems: model_step_has_table_effect (for all states and arguments the model\'s step changes nothing '
+            'outside its effect table, lazily filled fields only go None -> value, reset fields are None after '
+            'every accepted call), coherence_reads_only_spec_dependencies (the coherence clause of a derived field '
+            'reads only that field and its listed dependencies), generated_effects_match_model (every generated '
+            'row = the table of the model operation behind it; other entry points write nothing), '
+            'generated_attributes_known (no attribute the model does not know; None-initialised exactly where '
+            'State.init is none), generated_fill_reads_match_model (the lazy caches of the source are the model\'s, '
+            'each fill transitively reads exactly the fields the invariant computes it from) and '
+            'generated_effects_sufficient (on the GENERATED tables: whoever writes an attribute resets or rewrites '
+            'on every normal path every derived attribute whose dependency closure contains it); '
+            'generated_tables_preserve_coherence states what that condition means without reference to the hand '
+            'model (for any value type and any coherence relations that read only the dependency closure, a call '
+            'that changes only what its generated row lists and stores None-or-coherent values in derived attributes '
+            'preserves coherence); model_effect_table_is_tight (every listed write really happens on a concrete '
+            'probe). A dropped or '
+            'conditional reset, a getter that stops recomputing, or a new cached attribute that some mutator does '
+            'not know breaks one of these obligations independently of the random histories.',
+    'note': 'Trusted for the regeneration tie: harness/gen/_effects.py (abstract interpretation of the method bodies: '
+            'last write per attribute over all normal exits, loops to a fixpoint, try/except, helper / property / '
+            'super() / Base.m(self) inlining along the MRO; anything outside its fragment - self escaping, unknown '
+            'decorators, multiple inheritance, del / setattr - is reported as a broken tie); it does not see '
+            'mutation through a local alias of an attribute or by code outside the class, and it is path-insensitive '
+            '(a write on one path and a reset on another are both reported). The dependencies of the two eagerly '
+            'recomputed attributes (_pathloss_big_matrix, _H_no_pathloss) are taken from the model (specDeps / '
+            'State.hNoPL), those of the lazy caches from the source. A changed SET of resets breaks the bridge even '
+            'when it is behaviour preserving (e.g. ExtInt.set_pathloss no longer resetting _H_with_pathloss, which '
+            'that class never reads): reported as a broken obligation without failing input. '
+            'Trusted: Lean kernel, axioms {propext, Classical.choice, Quot.sound}; the hand model and its exact '
             'correspondence (generators stay inside the documented shapes: path loss K x K(+ K x extK), filters '
             'with Nr_k rows, data with Nt_k rows, >=1 interference source, antenna counts >= 1; numpy '
             'broadcasting / shape errors for ill-shaped arguments and the half-updated state they leave behind '
@@ -108,6 +143,17 @@ CLAIM = {
             '(blocks of H) are read-only views (R3). R14 - K = 257 users in every quick run, 257 / 258 / 300 '
             '(plain and ExtInt) in thorough; 2^16+1 users would need a 2^32-entry matrix and is not run.',
 }
+
+# which comparison between the regenerated effect tables and the model fails (run only when the build broke)
+EFFECTS_DIAG = """import PyPhysim.Proofs.C08Gen
+open PyPhysim.CacheEffects PyPhysim.C08 PyPhysim.Generated.C08Effects
+def okOr (b : Bool) (s : String) : String := if b then "ok" else s
+#eval IO.println s!"DIAG rows-differ-from-model {okOr (rows.all rowMatches) (toString ((rows.filter fun r => !rowMatches r).map fun r => (r.cls, r.name, r.clears, r.assigns, r.mayWrite, r.fills)))}"
+#eval IO.println s!"DIAG entry-points-present {okOr (entryPointsPresent rows) "a modelled entry point has no row"}"
+#eval IO.println s!"DIAG attributes-known {okOr (initMatches initAttrs && mentionsOnlyInit initAttrs rows) (toString (initAttrs.map fun e => (e.1, e.2.map fun x => x.1)))}"
+#eval IO.println s!"DIAG fill-reads-match-model {okOr (fillsMatch fillReads) (toString fillReads)}"
+#eval IO.println s!"DIAG sufficiency(class,entry,derived-attribute,written-attribute) {okOr (sufficient (depsOf fillReads) rows) (toString (violations (depsOf fillReads) rows))}"
+"""
 
 PL_VALUES = [Fraction(1), Fraction(1, 4), Fraction(1, 16), Fraction(1, 64), Fraction(4), Fraction(9, 16),
              Fraction(1), Fraction(1, 4), Fraction(25, 4), Fraction(0)]
@@ -2267,7 +2313,10 @@ def check(ctx):
                 'token by token with the Lean model, the same generator with real floats for the oracle-only stream; '
                 'evaluations = operations executed; non-trivial = a read of a view that was read before the latest '
                 'mutation (read-mutate-read), a transmission, or a rejected call')
-    core.prove(ctx, MODULE, generated=[], drivers=[DRIVER], scratch=ctx.scratch)
+    proved = core.prove(ctx, MODULE, generated=['C08Effects'], drivers=[DRIVER], scratch=ctx.scratch)
+    if not proved and not any(b['kind'] == 'tie' for b in ctx.broken):
+        from harness.gen import _effects
+        _effects.diagnose(core, ctx, 'C08', EFFECTS_DIAG)
     ctx.required_branches = list(REQUIRED)
     n_hist, maxlen = (500, 30) if quick else (6000, 60)
     corpus = corpus_cases()
